@@ -315,6 +315,18 @@ impl<'a, 'b> InternalDelphiLogicalLineParser<'a, 'b> {
                         };
                     }
                     self.next_token();
+                    // The (dotted) name after the keyword is a name, even when it is spelled
+                    // like a portability directive, e.g., `unit Platform;`
+                    while let Some(TT::Identifier | TT::IdentifierOrKeyword(_)) =
+                        self.get_current_token_type()
+                    {
+                        self.consolidate_current_ident();
+                        self.next_token();
+                        if self.get_current_token_type() != Some(TT::Op(OK::Dot)) {
+                            break;
+                        }
+                        self.next_token();
+                    }
                     self.simple_op_until(
                         after_semicolon(),
                         keyword_consolidator(|keyword| PORTABILITY_DIRECTIVES.contains(&keyword)),
@@ -1434,7 +1446,11 @@ impl<'a, 'b> InternalDelphiLogicalLineParser<'a, 'b> {
                         Some(
                             TT::Op(OK::Colon | OK::Dot | OK::Caret(CaretKind::Type))
                                 | TT::Keyword(
-                                    KK::Function | KK::Procedure | KK::Constructor | KK::Destructor
+                                    KK::Function
+                                        | KK::Procedure
+                                        | KK::Constructor
+                                        | KK::Destructor
+                                        | KK::Of
                                 )
                         )
                     ) =>
@@ -1772,6 +1788,14 @@ impl<'a, 'b> InternalDelphiLogicalLineParser<'a, 'b> {
             match prev_token_type {
                 Some(TT::Op(OK::RBrack | OK::RParen)) => {}
                 Some(TT::Keyword(KK::Type | KK::Of)) => break,
+                // The word after `absolute` or after a property specifier is a name,
+                // e.g., `Foo: Integer absolute Platform;`, `property Foo: Bar read Deprecated;`
+                Some(
+                    TT::Keyword(KK::Absolute | KK::Read | KK::Write | KK::Stored | KK::Implements)
+                    | TT::IdentifierOrKeyword(
+                        KK::Absolute | KK::Read | KK::Write | KK::Stored | KK::Implements,
+                    ),
+                ) => break,
                 Some(token_type) if is_operator(token_type) => break,
                 _ => {}
             }
